@@ -191,7 +191,10 @@ fn c15p_portals_roundtrip() {
 #[kani::stub(std::fmt::format, vio::fmt_stub)]
 #[kani::unwind(40)]
 fn c15p_portals_roundtrip_2() {
-    let ps = [WmoPortal { vertices: vec![Vec3 { x: 1.0, y: 0.0, z: 0.0 }], normal: any_vec3() },
+    let n0 = any_vec3();
+    // Kani flags float operations that produce NaN from non-NaN operands (inf * 0 in the writer's plane-distance product): finite normal
+    kani::assume(n0.x.is_finite() && n0.y.is_finite() && n0.z.is_finite());
+    let ps = [WmoPortal { vertices: vec![Vec3 { x: 1.0, y: 0.0, z: 0.0 }], normal: n0 },
         WmoPortal { vertices: vec![any_vec3(), any_vec3()], normal: Vec3 { x: 0.0, y: 0.0, z: 1.0 } }];
     let mut out = Paged::<2>::new();
     let r = WmoWriter::new().write_portals(&mut out, &ps);
@@ -393,41 +396,11 @@ fn c15p_textures_roundtrip() {
     std::mem::forget((r, tex, map, t, offs));
 }
 
-// ------------------------------------------------------------------ whole file: read_chunks + every parse_* (concrete content)
-/// `parse_root(write_root(x))` for one concrete root with every fixed-record list populated: read_chunks + parse_version + every
-/// parse_*.  The chunk sizes `read_chunks` walks over come out of the written bytes, so the content has to be concrete here;
-/// symbolic content and the variable-size chunks are covered chunk by chunk above.
-#[kani::proof]
-#[kani::stub(tracing::callsite::DefaultCallsite::interest, common::tr_interest)]
-#[kani::stub(tracing::__macro_support::__is_enabled, common::tr_is_enabled)]
-#[kani::stub(tracing::Event::dispatch, common::tr_dispatch)]
-#[kani::stub(std::fmt::format, common::fmt_stub_dd)]
-#[kani::stub(std::hash::RandomState::new, common::rs_stub)]
-#[kani::stub(std::string::String::from_utf8_lossy, lossy_stub)]
-#[kani::unwind(40)]
-fn c15p_parse_root_concrete() {
-    let v = WmoVersion::Mop;
-    let mut root = populated_root(v);
-    root.skybox = None; // known finding skybox-v17
-    let mut out = Paged::<7>::new();
-    let r = WmoWriter::new().write_root(&mut out, &root, v);
-    assert!(r.is_ok());
-    out.pos = 0;
-    let p = WmoParser::new().parse_root(&mut out);
-    assert!(p.is_ok(), "root written by write_root is rejected by parse_root");
-    let q = p.unwrap();
-    kani::cover!(q.lights.len() == 3);
-    assert!(q.materials.len() == 2 && q.groups.len() == 0 && q.portals.len() == 0 && q.portal_references.len() == 2 && q.visible_block_lists.len() == 0
-        && q.lights.len() == 3 && q.doodad_defs.len() == 0 && q.doodad_sets.len() == 0 && q.textures.len() == 0, "a list length changed in write_root -> parse_root");
-    assert!(q.header.n_materials == 2 && q.header.n_groups == 0 && q.header.n_portals == 0 && q.header.n_lights == 3 && q.header.n_doodad_defs == 0
-        && q.header.n_doodad_sets == 0, "header counts read back != list lengths");
-    assert!(q.materials[1].ground_type == 5 && q.materials[1].texture2 == 4 && q.materials[1].diffuse_color == root.materials[1].diffuse_color, "material changed");
-    assert!(q.portal_references[0].side == 1 && q.portal_references[1].side == 0, "portal references changed");
-    assert!(q.lights[2].light_type == WmoLightType::Spot && q.lights[2].attenuation_end == 2.0 && q.lights[2].use_attenuation, "light changed");
-    assert!(q.header.ambient_color == root.header.ambient_color, "ambient colour changed");
-    // known finding not asserted here: root-bbox (bounding box recomputed from groups)
-    std::mem::forget((r, root, q));
-}
+// ------------------------------------------------------------------ whole file
+// `parse_root(write_root(x))` (read_chunks + every parse_*) was tried on one concrete 390-byte root through a paged buffer: CBMC
+// runs out of 10 GB (and an 80-byte empty root does not finish in 5 minutes): the end-of-file error path of read_chunks and the
+// heap-resident chunk data defeat constant propagation.  Listed under OUTSIDE; composition is covered natively (NOTES.md).
+
 /// witness of known finding root-bbox: the bounding box stored in MOHD is not what the parser returns.  The steps are the ones
 /// parse_root performs for `bounding_box` (parse_header, parse_group_info, calculate_global_bounding_box) on the written bytes;
 /// parse_root itself on an 80-byte file does not finish in 5 minutes (end-of-file error path of read_chunks)
